@@ -1,6 +1,7 @@
 package main
 
 import (
+	"bytes"
 	"crypto/sha1"
 	"encoding/hex"
 	"encoding/json"
@@ -134,6 +135,8 @@ type commentsResult struct {
 	InFmt    *ownedJ `json:"in_fmt"` // of the gofmt-ed input (go/printer re-indents block comments and separates directives)
 	OutOwned *ownedJ `json:"out_owned,omitempty"`
 	Lines    []int   `json:"lines"` // offsets of line starts of the input (token.File view)
+	APIErr     string `json:"api_err"`
+	APIDiffers bool   `json:"api_differs"` // File.Apply returned other bytes than the step-by-step run
 }
 
 func runCommentsCase(c commentsCase) (res commentsResult) {
@@ -165,8 +168,25 @@ func runCommentsCase(c commentsCase) (res commentsResult) {
 	res.Steps = convSteps(tr.Steps)
 	res.OutErr = tr.FormatErr + tr.ProcErr
 	res.Out = tr.Processed
-	if tr.Processed != nil {
-		oo := ownedComments(tr.Processed)
+	// the output that is judged is the public API's (patch.Parse + File.Apply, one patch); the hook run above supplies
+	// the per-change steps and must have produced the same bytes
+	if len(c.Patches) == 1 {
+		if pf, err := patch.Parse(c.Patches[0].Name, c.Patches[0].Src); err == nil {
+			out, aerr := pf.Apply(c.File.Name, append([]byte(nil), c.File.Src...))
+			if aerr != nil {
+				res.APIErr = aerr.Error()
+			} else {
+				if tr.Processed != nil && !bytes.Equal(out, tr.Processed) {
+					res.APIDiffers = true
+				}
+				if tr.Processed != nil || !bytes.Equal(out, c.File.Src) {
+					res.Out = out
+				}
+			}
+		}
+	}
+	if res.Out != nil {
+		oo := ownedComments(res.Out)
 		res.OutOwned = &oo
 	}
 	return res
